@@ -206,7 +206,7 @@ func c19Observe(c c19Case, twice bool) (first, second c19Obs) {
 		log:                logr.Discard(),
 		profile:            &profile.GameProfile{ID: id, Name: c.Name, Properties: props},
 		// exactly as handshakeSessionHandler.handleHandshake builds it
-		virtualHost: netutil.NewAddr(fmt.Sprintf("%s:%d", c.ServerAddress, c.Port), "tcp"),
+		virtualHost: virtualHostAddr(c.ServerAddress, int(c.Port), "tcp"), // the real construction used by handleHandshake
 	}
 	var info ServerInfo = NewServerInfo("backend", netutil.NewAddr(c.BackendAddr, "tcp"))
 	if c.ServerHook == "identity" {
@@ -311,7 +311,7 @@ func c19Run(c c19Case) verifkit.Result {
 
 	if !forwarding {
 		labels = append(labels, "host-first")
-		if netutil.Host(netutil.NewAddr(fmt.Sprintf("%s:%d", c.ServerAddress, c.Port), "tcp")) == "" {
+		if netutil.Host(virtualHostAddr(c.ServerAddress, int(c.Port), "tcp")) == "" {
 			// no virtual host at all: the backend's own host is substituted (Velocity does the same); nothing to preserve
 			labels = append(labels, "empty-vhost")
 			return verifkit.Result{NonTrivial: false, Labels: labels}
